@@ -63,6 +63,7 @@ world.STATE.update({
     '_RENAMED_SELECTORS': KDict(KStr, KStr),
     '_CONSTANTS': SelectorMap,
     '_REGISTRY': SelectorMap,
+    '_INVERSE_REGISTRY': KDict(KVal, Configurable),
     # opaque token standing for everything registration-related that is not
     # modelled field by field (_INVERSE_REGISTRY, the wrappers, _ARG_SPEC_CACHE)
     'REGISTRATION': KVal,
@@ -73,7 +74,7 @@ world.STATE.update({
 
 # stores that exist in gin/config.py but are only touched through functions
 # that are assumed/bounded (listed so that the C20 inventory is complete)
-UNMODELLED_STORES = ['_INVERSE_REGISTRY', '_ARG_SPEC_CACHE']
+UNMODELLED_STORES = ['_ARG_SPEC_CACHE']
 
 world.LOCKS.clear()
 world.LOCKS.update({'_OPERATIVE_CONFIG_LOCK': 'HELD_OPERATIVE_CONFIG_LOCK',
